@@ -1,6 +1,8 @@
 # -*- coding: utf-8 -*-
 
+from vsg import parser
 from vsg.rules import create_violation, utils as rules_utils
+from vsg.vhdlFile import utils
 
 
 def add_new_line_and_remove_new_line(self, oToi, sOption, oTokenType):
@@ -24,6 +26,8 @@ def analyze_remove_new_line_before(self, oToi):
     iToken = oToi.get_meta_data("iToken")
     lTokens = oToi.get_tokens()
     if rules_utils.token_at_beginning_of_line_in_token_list(iToken, lTokens):
+        if _comment_between(utils.find_previous_non_whitespace_token(iToken - 1, lTokens), iToken, lTokens):
+            return
         oViolation = create_violation.remove_new_line(self, oToi)
         self.add_violation(oViolation)
 
@@ -49,5 +53,15 @@ def analyze_remove_new_line_after(self, oToi):
     iToken = oToi.get_meta_data("iToken")
     lTokens = oToi.get_tokens()
     if rules_utils.token_is_at_end_of_line(iToken, lTokens):
+        if _comment_between(iToken, utils.find_next_non_whitespace_token(iToken + 1, lTokens), lTokens):
+            return
         oViolation = create_violation.remove_new_line_after(self, oToi)
         self.add_violation(oViolation)
+
+
+def _comment_between(iStart, iEnd, lTokens):
+    # A comment runs to the end of its line, the line break after it can not be removed
+    for oToken in lTokens[iStart + 1 : iEnd]:
+        if type(oToken) is parser.comment:
+            return True
+    return False
